@@ -288,6 +288,14 @@ def shapes(tier, seed):
     out.append({'h': 'threads', 'ops': [small['shell'], small['shell']], 'preempt': 1, 'yields': True, 'dup_clse': True, 'max_paths': 100000, 'xpart': [0, 2, 8]})
     out.append({'h': 'threads', 'ops': [small['shell'], small['shell']], 'preempt': 1, 'yields': True, 'dup_clse': True, 'max_paths': 100000, 'xpart': [1, 2, 8]})
     out.append({'h': 'async', 'ops': [small['shell'], small['shell']], 'dup_clse': True, 'max_paths': 100000})
+    # preemption inside _AdbPacketStore.put (plus locks / transport calls), bound 2, with a device that repeats CLSEs: shells
+    # without output, so that the OKAY, the CLSE and its repeat of one stream can all be parked by the other stream's reader
+    empty = ['shell', {'lens': []}]
+    out.append({'h': 'threads', 'ops': [empty, empty], 'preempt': 2, 'yields': ['_AdbPacketStore.put'], 'dup_clse': True, 'max_paths': 100000})
+    if not q:
+        for i in range(8):
+            out.append({'h': 'threads', 'ops': [empty, empty], 'preempt': 2, 'yields': ['_AdbPacketStore'], 'dup_clse': True, 'max_paths': 100000, 'xpart': [i, 8, 12]})
+        out.append({'h': 'threads', 'ops': [empty, small['shell']], 'preempt': 2, 'yields': ['_AdbPacketStore.put'], 'dup_clse': True, 'max_paths': 200000})
     # a multi-packet listing / a rejected push next to a streaming_shell
     out.append({'h': 'async', 'ops': [['list', {'names': [1, 1, 1]}], small['sshell']], 'wrte_size': 24, 'max_paths': 200000})
     out.append({'h': 'async', 'ops': [['push', {'size': 5000, 'expect_exc': 'PushFailedError'}], small['sshell']], 'fail': ['done'], 'max_paths': 200000})
